@@ -145,10 +145,10 @@ def w_charges(na):
 
 
 # constructor kinds: (expected number of conformers or None = "whatever the object says")
-KINDS = ["list2", "mol", "list3", "atoms2", "ens", "empty", "atoms0", "mol_n3", "list1", "natoms", "kw", "xyz", "mol2", "struct", "clib"]
-KIND_NC = {"list1": 1, "list2": 2, "list3": 3, "mol": None, "mol_n3": 3, "ens": 2, "atoms2": 2, "atoms0": 0, "natoms": 2, "empty": 0, "kw": 2, "xyz": 2, "mol2": 2, "struct": None, "clib": 3}
+KINDS = ["list2", "mol", "list3", "atoms2", "ens", "empty", "atoms0", "mol_n3", "list1", "natoms", "kw", "xyz", "mol2", "struct", "clib", "kw_row", "kw_scalar", "kw_one", "kw_alias", "kw_list", "kw_int"]
+KIND_NC = {"list1": 1, "list2": 2, "list3": 3, "mol": None, "mol_n3": 3, "ens": 2, "atoms2": 2, "atoms0": 0, "natoms": 2, "empty": 0, "kw": 2, "xyz": 2, "mol2": 2, "struct": None, "clib": 3, "kw_row": 2, "kw_scalar": 2, "kw_one": 2, "kw_alias": 2, "kw_list": 2, "kw_int": 2}
 
-KIND_CLASS = {"list1": "molecule-list", "list2": "molecule-list", "list3": "molecule-list", "mol": "molecule", "mol_n3": "molecule", "ens": "ensemble", "atoms2": "atom-list", "atoms0": "atom-list", "kw": "atom-list+arrays", "natoms": "n_atoms", "empty": "no-arguments", "xyz": "loads_xyz", "mol2": "loads_mol2", "struct": "structure", "clib": "library-read"}
+KIND_CLASS = {"list1": "molecule-list", "list2": "molecule-list", "list3": "molecule-list", "mol": "molecule", "mol_n3": "molecule", "ens": "ensemble", "atoms2": "atom-list", "atoms0": "atom-list", "kw": "atom-list+arrays", "natoms": "n_atoms", "empty": "no-arguments", "xyz": "loads_xyz", "mol2": "loads_mol2", "struct": "structure", "clib": "library-read", "kw_row": "atom-list+arrays<row>", "kw_scalar": "atom-list+arrays<scalar>", "kw_one": "atom-list+arrays<one>", "kw_alias": "atom-list+arrays<alias>", "kw_list": "atom-list+arrays<list>", "kw_int": "atom-list+arrays<int>"}
 
 APPEND_SRC = ["M0", "own0", "E2c1", "Mx"]
 EXTEND_SRC = ["L1", "L2", "E2", "self", "ownslice", "gen", "L0"]
@@ -156,6 +156,17 @@ TFS = ["tr1", "tr2", "rot", "rotn", "scale2", "invert", "center_atom", "center_c
 WRITES = ["c_el", "c_all", "q_el", "q_all", "m_translate", "m_transform", "m_scale"]
 ROUTES = ["idx", "neg", "slice"]
 SETS = ["weights", "coords", "charges"]
+# forms of an assignment to ens.coords / ens.atomic_charges / ens.weights (and of the constructor
+# keywords).  Established on the repaired tree: every broadcastable form is accepted and fills all
+# conformers; shapes that do not broadcast raise ValueError and change nothing.
+SET_FORMS = {
+    "coords": ["full", "row", "scalar", "list", "int", "one", "own", "alias"],
+    "charges": ["full", "row", "scalar", "list", "int", "one", "own", "alias"],
+    "weights": ["full", "scalar", "list", "int", "one", "alias"],
+}
+SET_REJECTED = {"coords": ["bad_atoms", "bad_confs", "bad_row"], "charges": ["bad_atoms", "bad_confs", "bad_row"], "weights": ["bad_confs"]}
+KW_FORMS = ["row", "scalar", "one", "alias", "list", "int"]
+KEEPS = ["list", "steps", "interleaved", "sorted", "max", "combinations", "index", "slice", "slice_rev"]
 OBS = ["dumps_xyz", "dumps_mol2", "cdump_xyz", "cdump_mol2", "lib_conf", "lib_ens"]
 
 
@@ -224,7 +235,9 @@ class ESys:
         if k == "w":
             return f"write[{WRITE_LABEL[op[3]]}]"
         if k == "set":
-            return f"set[ens.{op[1]}=]"
+            return f"set[ens.{op[1]}=]" if len(op) < 3 or op[2] == "full" else f"set[ens.{op[1]}=<{op[2]}>]"
+        if k == "keep":
+            return f"keep[{op[1]}]"
         if k == "obs":
             return f"{op[1]}"
         if k == "next":
@@ -346,6 +359,21 @@ class ESys:
                         ops.append(("w", r, i, what))
         for s in self.rot(SETS) if (self.full or not live) else ["weights"]:
             ops.append(("set", s))
+        if not live:
+            degenerate = nc == 0 or na == 0
+            for s in self.rot(SETS):
+                for f in SET_FORMS[s]:
+                    if f == "full" or (degenerate and f != "scalar"):
+                        continue
+                    ops.append(("set", s, f))
+                if not degenerate:
+                    for f in SET_REJECTED[s]:
+                        ops.append(("set", s, f))
+        # ---- conformers that are kept past the step that produced them ------------------------
+        for kp in self.rot(KEEPS) if not live else ["list"]:
+            if kp == "max" and nc == 0:
+                continue
+            ops.append(("keep", kp))
         # ---- writing / serialising -----------------------------------------------------------
         for o in self.rot(OBS):
             if o in ("cdump_xyz", "cdump_mol2", "lib_conf"):
@@ -392,6 +420,11 @@ class ESys:
                 weights=[0.25, 0.75],
                 atomic_charges=np.stack([base_charges(na, 0, seed), base_charges(na, 1, seed)]).reshape((2, na)),
             )
+        if kind.startswith("kw_"):
+            f = kind[3:]
+            kw = dict(coords=self.form_value(st, "coords", f, 2, na), atomic_charges=self.form_value(st, "charges", f, 2, na))
+            kw["weights"] = self.form_value(st, "weights", f if f in SET_FORMS["weights"] else "scalar", 2, na)
+            return ConformerEnsemble(mk_atoms(na), n_conformers=2, name="mol", **kw)
         if kind == "xyz":
             return ConformerEnsemble.loads_xyz(xyz_text(na, [0, 1], seed))
         if kind == "mol2":
@@ -410,6 +443,44 @@ class ESys:
             finally:
                 self._lib_done(lib, self.libpath_c)
         raise HarnessError(f"unknown constructor kind {kind}")
+
+    def form_value(self, st, what, form, nc, na):
+        """the value assigned for (array, form); always a fresh object except 'own' / 'alias'"""
+        if what == "coords":
+            full = np.array([w_coords(na) + i for i in range(nc)], dtype=float).reshape((nc, na, 3))
+            foreign = st.e2.coords
+        elif what == "charges":
+            full = np.array([w_charges(na) - i for i in range(nc)], dtype=float).reshape((nc, na))
+            foreign = st.e2.atomic_charges
+        else:
+            full = np.array([0.5 + 0.25 * i for i in range(nc)], dtype=float).reshape((nc,))
+            foreign = st.e2.weights
+        if form == "full":
+            return full
+        if form == "row":
+            return full[0].copy()
+        if form == "scalar":
+            return 2.5
+        if form == "list":
+            return full.tolist()
+        if form == "int":
+            return (np.arange(full.size).reshape(full.shape) - 2).astype(np.int64)
+        if form == "one":
+            return full[0:1].copy()
+        if form == "own":
+            return st.ens[0].coords if what == "coords" else st.ens[0].atomic_charges
+        if form == "alias":
+            # an array object that belongs to ANOTHER ensemble (whole when the shapes agree, else its first row)
+            if tuple(foreign.shape) == tuple(full.shape):
+                return foreign
+            return foreign[0] if what != "weights" else foreign[0:1]
+        if form == "bad_atoms":
+            return np.ones((nc, na + 1, 3)) if what == "coords" else np.ones((nc, na + 1))
+        if form == "bad_confs":
+            return np.ones((nc + 1,) + tuple(full.shape[1:]))
+        if form == "bad_row":
+            return np.ones((na + 1, 3)) if what == "coords" else np.ones((na + 1,))
+        raise HarnessError(form)
 
     def _lib(self, cls, path):
         if path.exists():
@@ -642,26 +713,42 @@ class ESys:
 
         if kind == "set":
             what = op[1]
+            form = op[2] if len(op) > 2 else "full"
             nc, na = st.nc, st.na
+            attr = {"weights": "weights", "coords": "coords", "charges": "atomic_charges"}[what]
+            shape = {"weights": (nc,), "coords": (nc, na, 3), "charges": (nc, na)}[what]
+            rejected = form in SET_REJECTED[what]
             try:
-                if what == "weights":
-                    v = np.array([0.5 + 0.25 * i for i in range(nc)]).reshape((nc,))
-                    e.weights = v
-                    st.mw = v.copy()
-                elif what == "coords":
-                    v = np.array([w_coords(na) + i for i in range(nc)], dtype=float).reshape((nc, na, 3))
-                    e.coords = v
-                    st.mc = v.copy()
-                else:
-                    v = np.array([w_charges(na) - i for i in range(nc)], dtype=float).reshape((nc, na))
-                    e.atomic_charges = v
-                    st.mq = v.copy()
+                v = self.form_value(st, what, form, nc, na)
+                expv = None if rejected else np.array(np.broadcast_to(np.asarray(v, dtype=float), shape), dtype=float)
+            except HarnessError:
+                raise
             except Exception as ex:
-                self.viol(st, op, f"{oc}:raised-{exc_name(ex)}", f"assigning ens.{what} raised {exc_name(ex)}: {ex}")
+                raise HarnessError(f"cannot build the value for {op}: {exc_name(ex)}: {ex}")
+            try:
+                setattr(e, attr, v)
+            except Exception as ex:
+                if rejected:
+                    ok = self._check_state(st, op, oc, None, pre, alias=False, after_failure=True)
+                    self._mark(st, M_OTHER, None)
+                    return ok
+                self.viol(st, op, f"{oc}:raised-{exc_name(ex)}", f"assigning ens.{attr} ({form}) raised {exc_name(ex)}: {ex}")
                 return False
+            if rejected:
+                self.viol(st, op, f"{oc}:failing-assignment-succeeded", f"assigning an array of shape {np.shape(v)} to ens.{attr} of shape {shape} did not raise")
+                return False
+            if what == "weights":
+                st.mw = expv
+            elif what == "coords":
+                st.mc = expv
+            else:
+                st.mq = expv
             ok = self._check_rect(st, op, oc) and self._check_state(st, op, oc, (what, None), pre, alias=True)
             self._mark(st, M_OTHER, None)
             return ok
+
+        if kind == "keep":
+            return self._keep(st, op, oc, pre)
 
         if kind == "obs":
             what = op[1]
@@ -681,7 +768,7 @@ class ESys:
                 self.viol(st, op, f"iter:raised-{exc_name(ex)}", f"iter(ens) raised {exc_name(ex)}: {ex}")
                 return False
             self._mark(st, M_ITER, None)
-            st.its[k] = [it, 0, 0]
+            st.its[k] = [it, 0, 0, []]
             return self._check_state(st, op, oc, None, pre, alias=False)
 
         if kind == "drop":
@@ -691,7 +778,7 @@ class ESys:
 
         if kind == "next":
             _, k, mode = op
-            it, pos, mask = st.its[k]
+            it, pos, mask = st.its[k][:3]
             nc = st.nc
             label = "alone"
             if mask & M_ITER:
@@ -723,6 +810,7 @@ class ESys:
                 return False
             st.its[k][1] = pos + 1
             st.its[k][2] = 0
+            st.its[k][3].append(c)  # kept: must remain the view of row `pos` (checked after every step)
             if mode == "w":
                 try:
                     c.coords[0] = W_VEC
@@ -761,6 +849,99 @@ class ESys:
             return self._check_state(st, op, oc, None, pre, alias=False)
 
         raise HarnessError(f"unknown op {op}")
+
+    def _keep(self, st, op, oc, pre):
+        """obtain ALL conformers first, keep them, and only then look at / write through each"""
+        import itertools
+
+        e = st.ens
+        how = op[1]
+        nc, na = st.nc, st.na
+        try:
+            if how == "list":
+                kept, exp = list(e), list(range(nc))
+            elif how == "steps":
+                it = iter(e)
+                kept, exp = [next(it) for _ in range(nc)], list(range(nc))
+                if next(it, None) is not None:
+                    self.viol(st, op, f"{oc}:sequence-differs", f"the iterator yields more than {nc} conformers")
+                    return False
+            elif how == "interleaved":
+                a, b = iter(e), iter(e)
+                kept, exp = [], []
+                for i in range(nc):
+                    kept += [next(a), next(b)]
+                    exp += [i, i]
+            elif how == "sorted":
+                kept, exp = sorted(e, key=lambda c: 0), list(range(nc))  # stable: the iteration order
+            elif how == "max":
+                kept, exp = [max(e, key=lambda c: 0)], [0]  # the first of equal keys
+            elif how == "combinations":
+                kept, exp = [], []
+                for x, y in itertools.combinations(e, 2):
+                    kept += [x, y]
+                for i, j in itertools.combinations(range(nc), 2):
+                    exp += [i, j]
+            elif how == "index":
+                kept, exp = [e[i] for i in range(nc)], list(range(nc))
+                if nc:
+                    e[-1], e[0], e[0:nc]
+                for _ in e:
+                    pass
+            elif how == "slice":
+                kept, exp = e[0:nc], list(range(nc))
+                e[::-1]
+                if nc:
+                    e[0], e[-1]
+                for _ in e:
+                    pass
+            elif how == "slice_rev":
+                kept, exp = e[::-1], list(range(nc))[::-1]
+                e[0:nc]
+                for _ in e:
+                    pass
+            else:
+                raise HarnessError(how)
+            kept = list(kept)
+        except HarnessError:
+            raise
+        except Exception as ex:
+            self.viol(st, op, f"{oc}:raised-{exc_name(ex)}", f"collecting conformers ({how}) raised {exc_name(ex)}: {ex}")
+            return False
+        if len(kept) != len(exp):
+            self.viol(st, op, f"{oc}:sequence-differs", f"{how}: {len(kept)} conformers collected, expected {len(exp)}")
+            return False
+        try:
+            rows = [self.conf_row(st, c) for c in kept]
+            reads = [eqnan(c.coords, st.mc[r]) and eqnan(c.atomic_charges, st.mq[r]) for c, r in zip(kept, exp)]
+        except Exception as ex:
+            self.viol(st, op, f"{oc}:kept-conformer-read-raised-{exc_name(ex)}", f"reading a kept conformer raised {exc_name(ex)}: {ex}")
+            return False
+        if rows != exp or not all(reads):
+            self.viol(st, op, f"{oc}:kept-conformers-show-other-rows", f"{how}: the conformers kept stand for rows {rows}, expected {exp} (reads equal their row: {reads})")
+            return False
+        # writes: a different value through every kept conformer, in collection order
+        if na:
+            try:
+                for idx, (c, r) in enumerate(zip(kept, exp)):
+                    v = np.array([100.0 + idx, -1.0 * idx, 0.5])
+                    c.coords[0] = v
+                    st.mc[r, 0] = v
+                    c.atomic_charges[na - 1] = 10.0 + idx
+                    st.mq[r, na - 1] = 10.0 + idx
+            except Exception as ex:
+                self.viol(st, op, f"{oc}:write-through-kept-conformer-raised-{exc_name(ex)}", f"writing through a kept conformer raised {exc_name(ex)}: {ex}")
+                return False
+            try:
+                good = eqnan(e.coords, st.mc) and eqnan(e.atomic_charges, st.mq)
+            except Exception:
+                good = False
+            if not good:
+                self.viol(st, op, f"{oc}:write-through-kept-conformer-lands-in-another-row", f"{how}: writing value k through the k-th kept conformer did not change exactly row k")
+                return False
+        if how not in ("index", "slice", "slice_rev") or True:
+            self._mark(st, M_ITER, None)
+        return self._check_rect(st, op, oc) and self._check_state(st, op, oc, None, None, alias=False)
 
     def _mark(self, st, bit, own):
         for k, rec in st.its.items():
@@ -910,6 +1091,16 @@ class ESys:
                 self.viol(st, op, f"view[{route}]:conformer-view-differs[{','.join(badf)}]", f"after {list(op)}: ens[{i}] (route {route}) does not show row {i}: {badf}")
                 ok = False
                 break
+        # ---- conformers an iterator yielded earlier are still the views of their rows ----------
+        for k in sorted(st.its):
+            for p_, c in enumerate(st.its[k][3]):
+                try:
+                    good = self.conf_row(st, c) == p_ and eqnan(c.coords, st.mc[p_]) and eqnan(c.atomic_charges, st.mq[p_])
+                except Exception:
+                    good = False
+                if not good:
+                    self.viol(st, op, "kept[iterator]:earlier-yielded-conformer-shows-another-row", f"after {list(op)}: the conformer an iterator yielded at position {p_} no longer shows row {p_}")
+                    return False
         # ---- nothing else changed -------------------------------------------------------------
         cur = self._foreign(st)
         for (n, cls, a, q), (n2, cls2, a0, q0) in zip(cur, st.fsnap):
@@ -948,6 +1139,9 @@ class ESys:
                     c.centroid()
                     if na >= 2:
                         c.distance(0, 1)
+            for k in sorted(st.its):
+                for p_, c in enumerate(st.its[k][3]):
+                    self.conf_row(st, c), c.coords, c.atomic_charges
         except Exception as ex:
             raise HarnessError(f"replay of a validated prefix: reading raised {exc_name(ex)}: {ex}; hist={st.hist}")
         return True
@@ -1320,6 +1514,12 @@ def repro_code(na, seed, hist):
         "natoms": "ml.ConformerEnsemble(n_conformers=2, n_atoms=na)",
         "empty": "ml.ConformerEnsemble()",
         "kw": "ml.ConformerEnsemble([Atom(E[j % 4]) for j in range(na)], n_conformers=2, coords=np.zeros((2, na, 3)), weights=[0.25, 0.75], atomic_charges=np.zeros((2, na)))",
+        "kw_row": "ml.ConformerEnsemble([Atom(E[j % 4]) for j in range(na)], n_conformers=2, coords=np.zeros((na, 3)), atomic_charges=np.zeros(na), weights=1.0)",
+        "kw_scalar": "ml.ConformerEnsemble([Atom(E[j % 4]) for j in range(na)], n_conformers=2, coords=0.0, atomic_charges=0.0, weights=1.0)",
+        "kw_one": "ml.ConformerEnsemble([Atom(E[j % 4]) for j in range(na)], n_conformers=2, coords=np.zeros((1, na, 3)), atomic_charges=np.zeros((1, na)), weights=np.ones(1))",
+        "kw_alias": "ml.ConformerEnsemble([Atom(E[j % 4]) for j in range(na)], n_conformers=2, coords=E2.coords, atomic_charges=E2.atomic_charges, weights=E2.weights)",
+        "kw_list": "ml.ConformerEnsemble([Atom(E[j % 4]) for j in range(na)], n_conformers=2, coords=np.zeros((2, na, 3)).tolist(), atomic_charges=np.zeros((2, na)).tolist(), weights=[1.0, 1.0])",
+        "kw_int": "ml.ConformerEnsemble([Atom(E[j % 4]) for j in range(na)], n_conformers=2, coords=np.zeros((2, na, 3), dtype=int), atomic_charges=np.zeros((2, na), dtype=int), weights=np.ones(2, dtype=int))",
         "xyz": "ml.ConformerEnsemble.loads_xyz(ml.ConformerEnsemble([M[0], M[1]]).dumps_xyz())",
         "mol2": "ml.ConformerEnsemble.loads_mol2(ml.ConformerEnsemble([M[0], M[1]]).dumps_mol2())",
         "struct": "ml.ConformerEnsemble(ml.Structure(M[0]))",
@@ -1360,6 +1560,25 @@ def repro_code(na, seed, hist):
                     "m_scale": f"{c}.scale(2.0)",
                 }[what]
             )
+        elif k == "keep":
+            L.append({"list": "kept = list(ens)", "steps": "it = iter(ens); kept = [next(it) for _ in range(ens.n_conformers)]", "interleaved": "a, b = iter(ens), iter(ens); kept = [next(x) for _ in range(ens.n_conformers) for x in (a, b)]", "sorted": "kept = sorted(ens, key=lambda c: 0)", "max": "kept = [max(ens, key=lambda c: 0)]", "combinations": "import itertools; kept = [c for pair in itertools.combinations(ens, 2) for c in pair]", "index": "kept = [ens[i] for i in range(ens.n_conformers)]; [c for c in ens]", "slice": "kept = ens[0:ens.n_conformers]; [c for c in ens]", "slice_rev": "kept = ens[::-1]; [c for c in ens]"}[op[1]])
+            L.append("print([str(c) for c in kept])   # each kept conformer must still stand for its own row")
+        elif k == "set" and len(op) > 2 and op[2] != "full":
+            a_ = {"weights": "weights", "coords": "coords", "charges": "atomic_charges"}[op[1]]
+            L.append(
+                {
+                    "row": f"ens.{a_} = np.ones(ens.{a_}.shape[1:])",
+                    "scalar": f"ens.{a_} = 2.5",
+                    "list": f"ens.{a_} = np.ones(ens.{a_}.shape).tolist()",
+                    "int": f"ens.{a_} = np.ones(ens.{a_}.shape, dtype=int)",
+                    "one": f"ens.{a_} = np.ones((1,) + ens.{a_}.shape[1:])",
+                    "own": f"ens.{a_} = ens[0].{a_}",
+                    "alias": f"ens.{a_} = E2.{a_} if E2.{a_}.shape == ens.{a_}.shape else E2.{a_}[0]",
+                    "bad_atoms": f"ens.{a_} = np.ones((ens.n_conformers, ens.n_atoms + 1) + ens.{a_}.shape[2:])   # must raise",
+                    "bad_confs": f"ens.{a_} = np.ones((ens.n_conformers + 1,) + ens.{a_}.shape[1:])   # must raise",
+                    "bad_row": f"ens.{a_} = np.ones((ens.n_atoms + 1,) + ens.{a_}.shape[2:])   # must raise",
+                }[op[2]]
+            )
         elif k == "set":
             L.append({"weights": "ens.weights = np.arange(ens.n_conformers) + 0.5", "coords": "ens.coords = np.zeros(ens.coords.shape)", "charges": "ens.atomic_charges = np.zeros(ens.atomic_charges.shape)"}[op[1]])
         elif k == "obs":
@@ -1393,7 +1612,7 @@ def repro_code(na, seed, hist):
 # (hidden state that lives where no fingerprint can see it - closures, module-level tables - still
 #  has to survive "something looked at the ensemble, then it grew, then something looks again")
 # =================================================================================================
-D_OBS = ["loop", "nested", "iterator", "dumps_xyz", "dumps_mol2", "center_core", "center_atom", "lib_ens", "cdump_last", "lib_conf_last", "w_neg", "w_slice", "set_weights"]
+D_OBS = ["loop", "nested", "iterator", "keep_list", "dumps_xyz", "dumps_mol2", "center_core", "lib_ens", "w_neg", "keep_index", "center_atom", "cdump_last", "lib_conf_last", "w_slice", "set_weights", "keep_slice", "set_charges_row"]
 D_GROW = [("append", "M0"), ("append", "own0"), ("extend", "L2"), ("extend", "E2"), ("extend", "self"), ("append", "E2c1"), ("extend", "L1"), ("extend", "ownslice"), ("extend", "gen")]
 D_KINDS_QUICK = ["list2", "mol", "atoms0", "ens", "empty", "clib"]
 
@@ -1425,6 +1644,10 @@ def d_expand(st, o):
         return [("w", "slice", nc - 1, "q_all")] if nc else None
     if o == "set_weights":
         return [("set", "weights")]
+    if o in ("keep_list", "keep_index", "keep_slice"):
+        return [("keep", o[5:])]
+    if o == "set_charges_row":
+        return [("set", "charges", "row")] if nc and na else None
     raise HarnessError(o)
 
 
